@@ -33,6 +33,8 @@ VARIABLES imm,
           blobs1, mans1, tags1, ups1, touched1, res1,     \* member 1
           pol,          \* read policy of the unifier
           lf,           \* lf[i]: listing fault member i is wrapped with
+          wf,           \* wf[i]: member i failed the last write made through the unifier by itself
+                        \* (an injected fault: it took the call, stored nothing, answered DENIED)
           issued,       \* upload ids the unifier has handed out
           via,          \* who took the last step: "u" (through the unifier), "m0"/"m1" (direct), "-"
           last,         \* the operation record of the last step
@@ -47,13 +49,14 @@ mem0 == <<blobs0, mans0, tags0, ups0, touched0>>
 mem1 == <<blobs1, mans1, tags1, ups1, touched1>>
 cfgvars == <<imm, pol, lf>>
 vars == <<imm, blobs0, mans0, tags0, ups0, touched0, res0, blobs1, mans1, tags1, ups1, touched1, res1,
-          pol, lf, issued, via, last, res>>
+          pol, lf, wf, issued, via, last, res>>
 
 None == "-"
 Has(f, x) == x \in DOMAIN f
 NoRes == A!NoRes
 ErrR(code) == A!ErrR(code)
 NoFault == [k |-> 0, code |-> ""]
+NoWF == [i \in {0, 1} |-> FALSE]
 
 DigestReads == {"GetBlob", "GetBlobRange", "GetManifest", "ResolveBlob", "ResolveManifest"}
 TagReads == {"GetTag", "ResolveTag"}
@@ -107,6 +110,7 @@ Init ==
   /\ A!Init /\ B!Init
   /\ pol = "seq"
   /\ lf = [i \in {0, 1} |-> NoFault]
+  /\ wf = NoWF
   /\ issued = {}
   /\ via = "-" /\ last = [op |-> "-"]
   /\ res = NoRes
@@ -114,19 +118,26 @@ Init ==
 \* A call through a unifier built with read policy p over the members wrapped with listing
 \* faults f.  A composite upload id the unifier never issued does not decode: Resume fails
 \* before any member is asked.
-ViaUnifier(o, p, f) ==
+\* w[i]: member i fails this call by itself (whenever it answers: before or after the other
+\* member): it stores nothing and answers DENIED.  The rule is the same - a write succeeds
+\* only if every member succeeded - and the healthy member has done what it was asked.
+ViaUnifierWF(o, p, f, w) ==
   /\ via' = "u" /\ last' = o
-  /\ pol' = p /\ lf' = f /\ UNCHANGED imm
+  /\ pol' = p /\ lf' = f /\ wf' = w /\ UNCHANGED imm
   /\ IF o.op = "Resume" /\ o.u \notin issued
        THEN /\ res' = ErrR("FAIL") /\ res0' = NoRes /\ res1' = NoRes
             /\ UNCHANGED <<mem0, mem1, issued>>
-       ELSE /\ A!Apply(o) /\ B!Apply(o)
+       ELSE /\ IF w[0] THEN res0' = ErrR("DENIED") /\ UNCHANGED mem0 ELSE A!Apply(o)
+            /\ IF w[1] THEN res1' = ErrR("DENIED") /\ UNCHANGED mem1 ELSE B!Apply(o)
             /\ res' \in Combine(p, f, o, res0', res1')
             /\ issued' = IF o.op = "PushBlobChunked" /\ res'.ok THEN issued \cup {o.u} ELSE issued
+
+ViaUnifier(o, p, f) == ViaUnifierWF(o, p, f, NoWF)
 
 \* A call made on one member behind the unifier's back.
 Direct(i, o) ==
   /\ via' = (IF i = 0 THEN "m0" ELSE "m1") /\ last' = o
+  /\ wf' = NoWF
   /\ UNCHANGED <<cfgvars, issued>>
   /\ IF i = 0 THEN A!Apply(o) /\ res' = res0' /\ res1' = NoRes /\ UNCHANGED mem1
               ELSE B!Apply(o) /\ res' = res1' /\ res0' = NoRes /\ UNCHANGED mem0
@@ -217,6 +228,9 @@ WriteBothStep ==
   /\ res'.ok => (res0'.ok /\ res1'.ok)
   /\ (res0'.ok /\ res1'.ok) => res'.ok
 \* a read through the unifier changes neither member
+\* a member that failed by itself makes the whole write fail, and has stored nothing
+FaultyMemberFailsWriteStep ==
+  (U /\ ~Undecodable /\ wf' # NoWF) => (~res'.ok /\ (wf'[0] => mem0' = mem0) /\ (wf'[1] => mem1' = mem1))
 ReadsChangeNothingStep == (U /\ LO.op \in ReadOps) => (mem0' = mem0 /\ mem1' = mem1)
 
 \* Two members that are equal stay equal.  Equality is of what can be observed (content and
@@ -224,18 +238,19 @@ ReadsChangeNothingStep == (U /\ LO.op \in ReadOps) => (mem0' = mem0 /\ mem1' = m
 Obs0 == <<blobs0, mans0, tags0, ups0>>
 Obs1 == <<blobs1, mans1, tags1, ups1>>
 MemEq == Obs0 = Obs1
-EqualStaysEqualStep == (U /\ MemEq) => MemEq'
+\* (a member that fails by itself - wf - is not an equal member any more)
+EqualStaysEqualStep == (U /\ MemEq /\ wf' = NoWF) => MemEq'
 \* The members are two copies of one deterministic implementation: in equal states they
 \* resolve the contract's looseness (which error code an empty repository gives, whether a
 \* blob that only MAY be protected is kept) alike.  EqualStaysEqual is claimed of such pairs.
-SameImpl == (U /\ MemEq /\ touched0 = touched1) => (res0' = res1' /\ touched0' = touched1')
+SameImpl == (U /\ MemEq /\ touched0 = touched1 /\ wf' = NoWF) => (res0' = res1' /\ touched0' = touched1')
 
 UnionView == [][UnionViewStep]_vars
 TagConflictNeverSilent == [][TagConflictNeverSilentStep]_vars
-WriteBoth == [][WriteBothStep]_vars
+WriteBoth == [][WriteBothStep /\ FaultyMemberFailsWriteStep]_vars
 ReadsChangeNothing == [][ReadsChangeNothingStep]_vars
 EqualStaysEqual == [][EqualStaysEqualStep]_vars
-StepProps == UnionViewStep /\ TagConflictNeverSilentStep /\ WriteBothStep /\ ReadsChangeNothingStep
+StepProps == UnionViewStep /\ TagConflictNeverSilentStep /\ WriteBothStep /\ ReadsChangeNothingStep /\ FaultyMemberFailsWriteStep
 
 \* The two read policies give the same results: stated over the combination functions, for
 \* the answers the members gave in this step.
